@@ -692,3 +692,49 @@ def install_monitoring(line_codes, opcode_codes=()):
     cur = mon.get_local_events(TOOL_ID, c)
     if cur | ev != cur:
       mon.set_local_events(TOOL_ID, c, cur | ev)
+
+
+# ------------------------------------------------------------------ reach: miros lines executed
+# A second sys.monitoring tool that only records which lines of the miros functions were ever
+# executed by this process (each location reports once, then switches itself off).  It never
+# touches the simulator, draws no random number and is not part of any digest.
+COV_TOOL_ID = 3
+_cov_installed = False
+_cov_hit = set()        # (file basename, line)
+_cov_all = {}           # (file basename, line) -> qualname of the function it belongs to
+
+
+def _on_cov_line(code, lineno):
+  _cov_hit.add((code.co_filename.rsplit('/', 1)[-1], lineno))
+  return sys.monitoring.DISABLE
+
+
+def install_coverage(codes):
+  global _cov_installed
+  mon = sys.monitoring
+  if not _cov_installed:
+    if mon.get_tool(COV_TOOL_ID) is None:
+      mon.use_tool_id(COV_TOOL_ID, 'miros-sim-reach')
+    mon.register_callback(COV_TOOL_ID, mon.events.LINE, _on_cov_line)
+    _cov_installed = True
+  for c in codes:
+    fn = c.co_filename.rsplit('/', 1)[-1]
+    new = False
+    for _s, _e, ln in c.co_lines():
+      if ln is not None and ln != c.co_firstlineno and (fn, ln) not in _cov_all:
+        _cov_all[(fn, ln)] = c.co_qualname
+        new = True
+    if new or not mon.get_local_events(COV_TOOL_ID, c):
+      mon.set_local_events(COV_TOOL_ID, c, mon.events.LINE)
+
+
+def coverage_take():
+  """lines hit since the last call (the worker sends these to the parent)"""
+  out = set(_cov_hit)
+  _cov_hit.clear()
+  return out
+
+
+def coverage_universe():
+  return dict(_cov_all)
+
